@@ -170,9 +170,11 @@ CHECKS = {
              "(rounding never accumulates); nudge shifts every later ideal time by exactly x. Correspondence incl. long runs.",
         design="DESIGN.md §3 C01",
         note=SCHED_NOTE + " The closed form is proved for the clock part of Track.tick (pull loop + time increment); solo_clock "
-             "and C07.non_interference tie it to the track as it evolves inside a timeline tick (tracks without callbacks); the float "
-             "accumulation of the implementation is outside the model and shows only in the long correspondence runs "
-             "(known finding C01-float-drift).",
+             "and C07.non_interference tie it to the track as it evolves inside a timeline tick (tracks without callbacks); floats "
+             "are outside the model: the drift of the implementation's accumulated times showed in the long correspondence runs "
+             "(tick 100 000 at 24 PPQN) and was repaired (fb10b52: time from the tick count; cbcd7cb: compensated summation of event "
+             "times); the long runs (up to 2.1*10^6 ticks, exact and inexact durations) now follow the closed form, which for "
+             "floats is evidence, not proof.",
         technique="Lean 4 induction (onset invariant) + closed-form oracle in exact rationals + differential correspondence"),
     "C05": dict(
         text="Theorems: the scheduled start time is the first grid point at or after the call time plus delay (on-grid counts as "
